@@ -84,6 +84,8 @@ pub assume_specification<T: Default>[ core::mem::take::<T> ](dest: &mut T) -> (r
 // ---------------------------------------------------------------- time
 pub assume_specification[ std::time::Instant::now ]() -> std::time::Instant;
 
+
+
 // ---------------------------------------------------------------- str / utf8
 pub assume_specification<'a>[ core::str::from_utf8 ](v: &'a [u8]) -> (r: Result<&'a str, core::str::Utf8Error>)
     ensures
